@@ -54,7 +54,7 @@ theorem i256_div_mod_floor_spec (prof : Profile) (x1 x2 y : Int)
   i256DivModFloor_spec prof x1 x2 y h1 h2 hy
 
 theorem i128_shifted_div_mod_floor_spec (prof : Profile) (x : Int) (p : Nat) (y : Int)
-    (h1 : I128_MIN < x ∧ x ≤ I128_MAX) (hp : p ≤ 38) (hy : 0 < y ∧ y ≤ I128_MAX) :
+    (h1 : I128_MIN ≤ x ∧ x ≤ I128_MAX) (hp : p ≤ 38) (hy : 0 < y ∧ y ≤ I128_MAX) :
     i128ShiftedDivModFloor prof x p y =
       .ok (if ((x * 10 ^ p).natAbs / y.natAbs : Nat) ≤ I128_MAX.toNat then some ((x * 10 ^ p) / y, (x * 10 ^ p) % y) else none) :=
   i128ShiftedDivModFloor_spec prof x p y h1 hp hy
@@ -103,6 +103,11 @@ example : i256DivModFloor Profile.dev (-6) 0 7 = .ok (some (0, 0)) := by
 example : i128ShiftedDivModFloor Profile.release (-1000000000000000000000000000000) 18 100000000000000000000 =
     .ok (some (-10000000000000000000000000000, 0)) := by
   rw [i128ShiftedDivModFloor_spec Profile.release _ 18 _ (by decide) (by decide) (by decide)]; decide
+-- the dividend `i128::MIN` (an integer operand) on the wide path, both divisor signs
+example : i128ShiftedDivModFloor Profile.dev I128_MIN 2 7000 = .ok (some (-2430588335149560453309818624512630082, 1200)) := by
+  rw [i128ShiftedDivModFloor_spec Profile.dev _ 2 _ (by decide) (by decide) (by decide)]; decide
+example : i128ShiftedDivModFloor Profile.release I128_MIN 1 (-30) = .ok (some (56713727820156410577229101238628035242, -20)) := by
+  rw [i128ShiftedDivModFloor_spec_neg Profile.release _ 1 _ (by decide) (by decide) (by decide)]; decide
 example : Dom ⟨-1000000000000000000000000000000, 0⟩ ∧ Dom ⟨100000000000000000000, 0⟩ ∧
     Spec.div .floor (-1000000000000000000000000000000) 0 100000000000000000000 0 = .val (-10000000000) 0 := by decide
 
